@@ -84,18 +84,33 @@ def gen_case(rng):
         out.append(first)
         for ind, l in lines[1:]:
             out.append(ind + l + rng.choice(['', ' ']))
+    closer = yaml
     if yaml:
         out.append('---')
+    elif rng.random() < 0.06:
+        # a closing line of dashes without an opening one ends the block just the same (and belongs to it)
+        out.append(rng.choice(['---', '-----', '----------']))
+        closer = True
     block = eol.join(out)
     term = rng.choice(['blank', 'blank', 'blank', 'eof-nl', 'eof'])
-    if yaml and term == 'eof':
+    if closer and term == 'eof':
         term = 'eof-nl'
-    if yaml and term == 'blank' and rng.random() < 0.4:
+    if closer and term == 'blank' and rng.random() < 0.4:
         term = 'fence'          # the closing fence ends the block: the body may follow it directly
+    ender = None
+    if not closer and rng.random() < 0.06:
+        # a line that cannot be part of a metadata block ends it without a blank line; what follows is body, even when it is spelled 'key: text'
+        term = 'ender'
+        ender = rng.choice(['***', '=====', '* * *', '```'])
     c.term = term
     c.yaml = yaml
     c.eol = eol
-    if term == 'blank':
+    if term == 'ender':
+        c.body = (ender + '\nFoo: looks like meta w915\nmore w916\n' + ('```\n' if ender == '```' else '')).replace('\n', eol)
+        c.block_bytes = (block + eol).encode('utf-8')
+        c.src = c.block_bytes + c.body.encode('utf-8')
+        c.sep = b''
+    elif term == 'blank':
         c.body = rng.choice(BODIES).replace('\n', eol)
         c.block_bytes = (block + eol).encode('utf-8')
         c.src = c.block_bytes + eol.encode() + c.body.encode('utf-8')
@@ -250,7 +265,7 @@ def check_updates(r, s, c, rng, fam):
             r.violate('%s:keys' % site, 'after update(%r): keys %r, expected %r' % (kq, keys, model_keys), case, core.show(new_src, 400))
             return
         got_body = new_src[end:]
-        exp = (c.sep + body) if c.term in ('blank', 'fence') else b''
+        exp = (c.sep + body) if c.term in ('blank', 'fence', 'ender') else b''
         if got_body.lstrip(b'\r\n') != exp.lstrip(b'\r\n'):
             r.violate('%s:body-changed' % site, 'after update(%r): the text after the metadata block changed' % kq, case,
                       'expected %s\ngot      %s' % (core.show(exp, 200), core.show(got_body, 200)))
@@ -319,6 +334,31 @@ def work(job):
     return r
 
 
+NOT_METADATA = [b'Title:\nAuthor: x\n\nbody\n', b'Title: \nAuthor: x\n\nbody\n', b'Key:\n', b'Key:\n\nbody w1\n', b'Title:\n    continued\n\nbody\n', b'http://example.com/: x\n\nbody\n',
+                b'no colon here\nTitle: x\n\nbody\n', b'\nTitle: x\n\nbody\n']
+
+
+def work_negative(job):
+    """documents whose first line looks like a key but that do not start with a metadata block (an empty first key is not metadata, a URL is not a key,
+    metadata cannot start on the second line): the answer is 'no metadata', end offset 0, no keys, no value -- through the three families"""
+    seed, = job
+    r = core.JobResult()
+    with core.Session(r) as s:
+        for src in NOT_METADATA:
+            for fam in range(3):
+                case = dict(requests=[D.req_to_json('asan', 'META', 0, 0, 0, fam | (0 << 4), [src, b'', b''])])
+                q = query_all(r, s, src, fam, case, 'negative')
+                if q is None:
+                    continue
+                has, end, keys = q
+                r.stats['documents_without_metadata_queried'] += 1
+                r.distinct.add(('neg', src, fam))
+                if has or end != 0 or keys:
+                    r.violate('no-metadata:%s' % ('answer' if has or keys else 'end-offset'), '%s family on a document without a metadata block: has=%s end=%s keys=%r (expected false, 0, none)' % (FAM[fam], has, end, keys),
+                              case, core.show(src, 200))
+    return r
+
+
 def main():
     chk = core.Check(ID)
     n = chk.scale(2500, 100000)
@@ -329,4 +369,5 @@ def main():
     chk.assumptions = ['value normalisation = whitespace runs (incl. line breaks) collapsed to one space, trimmed; no backslash before a line break in generated values']
     chunk = max(10, n // 64)
     chk.run_jobs(work, [(chk.seed, lo, min(n, lo + chunk)) for lo in range(0, n, chunk)])
+    chk.run_jobs(work_negative, [(chk.seed,)])
     return chk.finish()
